@@ -2,7 +2,7 @@
    Table theorems are about the tables REGENERATED from mpn/generic/mp_bases.c and mp_dv_tab.c.
    Statements only. *)
 From Coq Require Import ZArith List Bool Reals.
-From Mpir Require Import Word DivDefs RadixDefs RadixReal RadixProofs TablesDefs TablesProofs.
+From Mpir Require Import Word Limbs DivDefs SetStrCDefs SetStrCProofs RadixDefs RadixReal RadixProofs TablesDefs TablesProofs.
 From MpirGen Require Import Gen_Consts Gen_BasesLog_all.
 Import ListNotations.
 Local Open Scope Z_scope.
@@ -76,6 +76,36 @@ Theorem C06_only_documented_digits : forall c, 0 <= c < 256 ->
   /\ (dv digit_value_tab 224 c <> 255 <-> (is_dig c || is_up c || is_lo c) = true).
 Proof. exact digit_tab_only_documented. Qed.
 Print Assumptions C06_only_documented_digits.
+
+
+(* ---- mpn/generic/set_str.c AS CODED (SetStrCDefs.v: the basecase gathering chars_per_limb digits per limb with its base-10 loop, the
+   table of powers with stripped low zero limbs, the divide-and-conquer recursion with its zero high part case, the bit packing for
+   power-of-two bases, the threshold choice with the REGENERATED thresholds and mp_bases table), the executable model of the family
+   mpn_set_str-as-coded ---- *)
+Theorem C06_mpn_set_str_as_coded : forall base str, 2 <= base <= 62 -> str <> [] -> Forall (dig base) str -> len str < 2 ^ 32 ->
+  exists l, SetStrCDefs.mpn_set_str str base = Some l /\ wf l /\ eval l = horner base str
+            /\ (nlz str -> normal l /\ len l = nlimbs (horner base str)).
+Proof. exact mpn_set_str_correct. Qed.
+Print Assumptions C06_mpn_set_str_as_coded.
+
+(* every entry j of the power table is big_base^e_j with its low zero limbs stripped, e_j = ((un-1) >> (j+1)) + 1 *)
+Theorem C06_set_str_power_table : forall base cpl bigb un, 2 <= base -> 1 <= cpl -> bigb = base ^ cpl -> bigb < B -> 2 <= un -> un - 1 < 2 ^ 32 ->
+  exists tab, mpn_set_str_compute_powtab un base cpl bigb = Some tab
+    /\ tab_ok base cpl tab /\ Z.of_nat (length tab) = Z.log2 (un - 1) + 1
+    /\ pw_digits_in_base (hd (mkpow [] 0 0 0 0) tab) = cpl * (Z.shiftr (un - 1) 1 + 1)
+    /\ (forall (j : nat) e, nth_error tab j = Some e ->
+          let ej := Z.shiftr (un - 1) (Z.of_nat j + 1) + 1 in
+          pw_digits_in_base e = cpl * ej /\ eval (pw_p e) * B ^ pw_shift e = bigb ^ ej).
+Proof. exact compute_powtab_correct'. Qed.
+Print Assumptions C06_set_str_power_table.
+
+Theorem C06_dc_set_str_as_coded : forall base cpl bigb dc_thr, 2 <= base -> 1 <= cpl -> bigb = base ^ cpl -> bigb < B ->
+  (base = 10 -> cpl = MP_BASES_CHARS_PER_LIMB_10) -> cpl < dc_thr ->
+  forall powtab str, tab_ok base cpl powtab -> str <> [] -> Forall (dig base) str ->
+  len str <= 2 * pw_digits_in_base (hd (mkpow [] 0 0 0 0) powtab) ->
+  exists l, mpn_dc_set_str dc_thr cpl bigb str powtab = Some l /\ res_ok base str l.
+Proof. exact dc_set_str_correct. Qed.
+Print Assumptions C06_dc_set_str_as_coded.
 
 Example C06_nonvacuous :
   set_str digit_value_tab [32; 45; 48; 120; 49; 70; 0] 0 = Some (-31)
